@@ -41,18 +41,26 @@
                          defined later, elements of several arrays interleaved): Display sorts the tables by
                          the position the parser gave them, which is the source order.  The side condition
                          is `spelled`: exactly the prefix-consistency of finding F5, stated on the tree.
-   NOT COVERED: class (d) dotted keys — `a.b = 1` lines and dotted keys inside inline tables (sec_doc is
-   false for them).  For these the text-level half is proved (C03_tiling: normalize s is the normal form
-   of the lines); what is missing is Display of the tables that dotted keys make (they print inside
-   their section, all lines of one prefix together: the adjacency condition) and the spelling of shared
-   dotted prefixes.  An example is checked by computation below.
+     C03_exact_dotted    class (a) + (b) + (c) + (d) for key/value lines: dotted keys `a.b = 1`, also below headers and
+                         through tables that dotted keys made (`[t]` / `y.z = 1` / `[t.y.k]`).  Conditions:
+                         dot_doc d (values plain: no dotted key inside an inline table) and laid_out s (doc_root d):
+                         Display's print sequence (tables sorted by position; per table its header, then its lines
+                         through the dotted tables) is checked against the source — a table that exists only as
+                         a super-table holds no lines; the source positions of the printed headers and lines
+                         increase (`dotted_adjacent` and more: print order = source order); every header and every
+                         line's key path is spelled in the source as it prints (`prefix_consistent`).
+   NOT COVERED: dotted keys INSIDE inline tables (`a = { b.c = 1 }`; dot_doc is false for them).  The
+   text-level half is proved for them too (C03_tiling); what is missing is Display of an inline table whose
+   pairs were flattened (InlineTable::append_values), with the same adjacency / spelling conditions inside the
+   braces.  An example is checked by computation below.
 
    Statements only; proofs in Proofs/Tiling*.v and Proofs/PrintBack*.v. *)
 From TV Require Import Base.Prelude Base.Utf8 Base.Winnow Gen.Consts Spec.Abnf Spec.Lex Spec.Defs Spec.Syntax Spec.Norm.
 From TV Require Import Model.Tree Model.Parse Model.Document Model.Encode.
 From TV Require Import Proofs.LexEquivBase Proofs.TilingDefs Proofs.TilingNormDoc
                        Proofs.PrintBackBase Proofs.PrintBackEnc Proofs.PrintBackKey Proofs.PrintBackValue Proofs.PrintBackDoc
-                       Proofs.PrintBackTop Proofs.PrintBackDespan Proofs.PrintBackEnts Proofs.PrintBackFinal Proofs.PrintBackSecTop.
+                       Proofs.PrintBackTop Proofs.PrintBackDespan Proofs.PrintBackEnts Proofs.PrintBackFinal Proofs.PrintBackSecTop
+                       Proofs.PrintBackDVals Proofs.PrintBackDFinal Proofs.PrintBackDTop.
 From TV Require Proofs.SpansDespanTotal.
 Require Import String Ascii.
 
@@ -145,6 +153,22 @@ Proof.
 Qed.
 Print Assumptions C03_exact_sections_total.
 
+(* class (a) + (b) + (c) + (d, key/value lines): dotted keys *)
+Theorem C03_exact_dotted : forall s d,
+  parse_document s = POk d -> dot_doc d = true -> laid_out s (doc_root d) = true -> render s d = normalize s.
+Proof. exact render_normalize_dotted. Qed.
+Print Assumptions C03_exact_dotted.
+
+Theorem C03_exact_dotted_total : forall s d,
+  utf8_valid_b s = true -> parse_document s = POk d -> dot_doc d = true -> laid_out s (doc_root d) = true ->
+  print_doc s d = Some (normalize s).
+Proof.
+  intros s d Hu Hp Hf Hs. destruct (SpansDespanTotal.despan_total s d Hu Hp) as (r & t & Er & Et).
+  assert (E : print_doc s d = Some (display_document r t)) by (unfold print_doc; rewrite Er, Et; reflexivity).
+  rewrite E. f_equal. rewrite (print_doc_render s d _ E). apply render_normalize_dotted; assumption.
+Qed.
+Print Assumptions C03_exact_dotted_total.
+
 (* ---- examples ------------------------------------------------------------------------------------------- *)
 Definition txt (s : string) : bytes := List.map byte_of_ascii (list_ascii_of_string s).
 Definition lf : string := String (ascii_of_nat 10) EmptyString.
@@ -195,10 +219,20 @@ Definition sections_ok (s : bytes) : bool :=
 Example C03_ex_sections : sections_ok ex_sections = true /\ prints_normal ex_sections = true /\ is_flat ex_sections = false.
 Proof. split; [|split]; vm_compute; reflexivity. Qed.
 
-(* class (d), by computation only: dotted keys, adjacent and spelled consistently *)
+(* class (d): dotted keys in the root section and below headers, a header through a table made by dotted
+   keys (`[t.y.k]`), arrays of tables, quoted keys: the conditions of C03_exact_dotted hold *)
 Definition ex_dotted : bytes :=
-  txt ("[t]" ++ lf ++ "q.r = 1" ++ lf ++ "q.s = { m.n = 1 }" ++ lf ++ "p = 2").
-Example C03_ex_dotted : prints_normal ex_dotted = true /\ sections_ok ex_dotted = false.
+  txt ("x = 1" ++ cr ++ lf ++ " # c" ++ lf ++ "a.b = 1" ++ lf ++ "a.c = 2" ++ lf ++ "  a.d.e = 3 # t" ++ lf ++ "[ t ] # h" ++ cr ++ lf
+       ++ "y.z = [ 1, 2 ]" ++ lf ++ "y.w = 3" ++ lf ++ "[[ u.v ]]" ++ lf ++ "z = 2" ++ lf ++ "[t.y.k]" ++ lf ++ "[[ u.v ]]" ++ lf
+       ++ dq ++ "p q" ++ dq ++ ".r = 1").
+Definition dotted_ok (s : bytes) : bool :=
+  match parse_document s with POk d => dot_doc d && laid_out s (doc_root d) | _ => false end.
+Example C03_ex_dotted : dotted_ok ex_dotted = true /\ prints_normal ex_dotted = true /\ sections_ok ex_dotted = false.
+Proof. split; [|split]; vm_compute; reflexivity. Qed.
+
+(* dotted keys inside an inline table: by computation only *)
+Example C03_ex_inline_dotted :
+  let s := txt ("q = { m.n = 1, m.o = 2 }" ++ lf) in prints_normal s = true /\ dotted_ok s = false.
 Proof. split; vm_compute; reflexivity. Qed.
 
 (* ---- why the side condition of the target statement is needed ---------------------------------------------- *)
@@ -225,6 +259,15 @@ Example C03_ex_spelled_fails :
   sections_ok (txt ("[ a . b ]" ++ lf ++ "[ a ]" ++ lf)) = false /\ sections_ok (txt ("[[u.v]]" ++ lf ++ "[[ u.v ]]" ++ lf)) = false
   /\ prints_normal (txt ("[[u.v]]" ++ lf ++ "[[ u.v ]]" ++ lf)) = false.
 Proof. split; [|split]; vm_compute; reflexivity. Qed.
+
+(* `laid_out` is what rules out the dotted-key variants: F5's witness, lines of one prefix that are not
+   adjacent (below), and a dotted key that runs through a super-table (class U1 of the specification) *)
+Example C03_ex_laid_out_fails :
+  dotted_ok (txt ("a.b = 1" ++ lf ++ dq ++ "a" ++ dq ++ " .c = 2" ++ lf)) = false
+  /\ dotted_ok (txt ("a.b = 1" ++ lf ++ "c = 2" ++ lf ++ "a.d = 3" ++ lf)) = false
+  /\ dotted_ok (txt ("[a.b.c]" ++ lf ++ "[a]" ++ lf ++ "b.y.z = 1" ++ lf)) = false
+  /\ prints_normal (txt ("[a.b.c]" ++ lf ++ "[a]" ++ lf ++ "b.y.z = 1" ++ lf)) = false.
+Proof. repeat split; vm_compute; reflexivity. Qed.
 
 (* dotted keys of one prefix that are not adjacent print together: a.b = 1 / c = 2 / a.d = 3 *)
 Example C03_ex_not_adjacent :
